@@ -442,6 +442,15 @@ func recordFaults(r *vlib.Run) {
 		if bytes.Equal(m, o) {
 			return
 		}
+		// the property's precondition (declared lengths bounded by the input size) applies to the
+		// encoding a damaged record carries, whichever way it was damaged
+		var probe record
+		if json.NewDecoder(bytes.NewReader(m)).Decode(&probe) == nil && probe.Stamp != "" {
+			if raw, err := base64.StdEncoding.DecodeString(probe.Stamp); err == nil && declaredTooLong(raw) {
+				r.Add("record_faults_skipped_precondition", 1)
+				return
+			}
+		}
 		os.WriteFile(filepath.Join(root, c.file), m, 0o644)
 		pi := strings.HasSuffix(c.file, "index.json")
 		if !pi && !rfHung {
